@@ -116,6 +116,7 @@ func runC01(c *Ctx, r *Report) {
 	r.Rule("C01.R7", "control objects are not values: no result of evalInternal (the only producer of break/continue/return objects) reaches an array element, an argument list, a map pair or a binding unless a Type()==RETURN test excluded it on that path or it went through State.Eval, which unwraps `return` and rejects the others (its comma-ok assertion to ReturnValue is checked)")
 	r.Rule("C01.R8", "dereference before discrimination: a value that may be an object.Reference (interprocedural may-hold analysis from the places a Reference is boxed; object.Value, Reference.ObjValue, a Type()!=REFERENCE test or a failed assertion to Reference clean it, edge by edge through phis) is never compared by tag with a storable value type, asserted to the Go type of one, or compared with the TRUE/FALSE/NULL singletons")
 	r.Rule("C01.R9", "loops honour break and continue: where State.evalInternal is called in a cycle of the evaluator on a node that does not change in that cycle (the body of a loop construct) and the result is tested for RETURN, its ReturnValue.ControlType is compared with BREAK and with CONTINUE; the BREAK arm cannot reach the body evaluation again, the CONTINUE arm can")
+	r.Rule("C01.R10", "binding errors are not dropped: in package eval the Object returned by Environment.Set / CreateOrSet (an Error for a bound constant or a built-in name) is used, never discarded")
 	r.Rule("C01.R4", "errors stop evaluation: no result of Eval/evalInternal is stored into an array element, a map pair or a binding unless a Type()==ERROR test has excluded the error on that path (interprocedural)")
 
 	tr := c.TokRel()
@@ -501,6 +502,9 @@ func runC01(c *Ctx, r *Report) {
 
 	// ---- R8 ---- references are dereferenced before their type is tested
 	c.checkDerefBeforeTest(r, "C01.R8")
+
+	// ---- R10 ---- the error of a binding call is looked at
+	c.checkBindingErrorsUsed(r, "C01.R10")
 
 	// ---- R9 ---- every loop form implements break and continue
 	c.checkLoopControl(r, "C01.R9")
